@@ -114,6 +114,21 @@ impl FraudProof for BadEncodingFraudProof {
                 (AxisType::Col, AxisType::Col) => header.dah.column_root(self.index).unwrap(),
             };
 
+            // the proof must be for the position this share occupies on the proof's axis
+            let position = match (self.axis, proof_axis) {
+                (AxisType::Row, AxisType::Row) | (AxisType::Col, AxisType::Col) => share_idx,
+                (AxisType::Row, AxisType::Col) | (AxisType::Col, AxisType::Row) => {
+                    usize::from(self.index)
+                }
+            };
+            if proof.start_idx() as usize != position || proof.end_idx() as usize != position + 1 {
+                bail_validation!(
+                    "share {share_idx} is proven at leaves {}..{}, expected leaf {position}",
+                    proof.start_idx(),
+                    proof.end_idx(),
+                );
+            }
+
             proof
                 .verify_range(&root, &[&share], **namespace)
                 .map_err(Error::RangeProofError)?;
